@@ -226,6 +226,20 @@ func replayLines(w *World, f *os.File, verbose bool) {
 		if line == "" || line[0] == '#' {
 			continue
 		}
+		if line == "exec" {
+			res := w.Exec()
+			if verbose {
+				fmt.Printf("REPLAY exec statuses=%s total_before=%s total_after=%s panic=%q\n", res.Statuses, res.Before, res.After, res.Panic)
+			}
+			continue
+		}
+		replayOne(w, line)
+	}
+}
+
+// replayOne applies one non-exec op line to the implementation.
+func replayOne(w *World, line string) {
+	{
 		t := strings.Fields(line)
 		switch t[0] {
 		case "reset":
@@ -247,11 +261,6 @@ func replayLines(w *World, f *os.File, verbose bool) {
 			w.Code(parseAddr(t[1]), parseScript(t[2]))
 		case "amt":
 			w.Amt(unhexStr(t[1]))
-		case "exec":
-			res := w.Exec()
-			if verbose {
-				fmt.Printf("REPLAY exec statuses=%s total_before=%s total_after=%s panic=%q\n", res.Statuses, res.Before, res.After, res.Panic)
-			}
 		case "tx":
 			switch t[1] {
 			case "op":
@@ -309,6 +318,7 @@ func runSearch(g *Gen, n int, stats map[string]interface{}) {
 	found := map[string]bool{}
 	evals := 0
 	var history []string
+	evals += searchCorpus(w, found)
 	for evals < n {
 		w.univ = universe()
 		w.Reset(true)
@@ -320,25 +330,43 @@ func runSearch(g *Gen, n int, stats map[string]interface{}) {
 		setupLines := snapshotLines(w)
 		nb := 10 + g.r.Intn(10)
 		for b := 0; b < nb && evals < n; b++ {
-			var q *QTx
-			if withContracts && g.r.Chance(3, 5) {
-				g.contractTx(true)
-			} else {
-				g.operatorTx()
+			k := g.r.Pick(1, 1, 2)
+			for i := 0; i < k; i++ {
+				if withContracts && g.r.Chance(3, 5) {
+					g.contractTx(i == 0)
+				} else {
+					g.operatorTx()
+				}
 			}
-			q = w.queue[len(w.queue)-1]
-			mayBurn := false
-			if q.isCt {
-				mayBurn = true // refined below
-				mayBurn = ctMayBurn(w, q)
+			qs := append([]*QTx{}, w.queue...)
+			mayBurn, neg, anyCt := false, false, false
+			for _, q := range qs {
+				if q.isCt {
+					anyCt = true
+					if ctMayBurn(w, q) {
+						mayBurn = true
+					}
+				}
+				if q.feat["negvalue"] {
+					neg = true
+				}
 			}
 			res := w.Exec()
 			evals++
-			line := q.line
-			if q.isCt {
-				line += " " + strconv.FormatUint(firstGas(res), 10)
+			var lines []string
+			for i, q := range qs {
+				line := q.line
+				if q.isCt {
+					gu := uint64(0)
+					if i < len(res.GasUsed) {
+						gu = res.GasUsed[i]
+					}
+					line += " " + strconv.FormatUint(gu, 10)
+				}
+				lines = append(lines, line)
 			}
-			history = append(history, line, "exec")
+			history = append(history, lines...)
+			history = append(history, "exec")
 			if res.Panic != "" {
 				continue
 			}
@@ -347,15 +375,15 @@ func runSearch(g *Gen, n int, stats map[string]interface{}) {
 			switch {
 			case d.Sign() > 0:
 				switch {
-				case q.feat["negvalue"]:
+				case neg:
 					key = "mint-negative-transferValue"
-				case q.isCt:
+				case anyCt:
 					key = "mint-contract-tx"
 				default:
 					key = "mint-operator-tx"
 				}
 			case d.Sign() < 0 && !mayBurn:
-				if q.feat["negvalue"] {
+				if neg {
 					key = "mint-negative-transferValue" // a negative transfer can also destroy value (|a+v|)
 				} else {
 					key = "burn-unexplained"
@@ -363,7 +391,7 @@ func runSearch(g *Gen, n int, stats map[string]interface{}) {
 			}
 			if key != "" && !found[key] {
 				found[key] = true
-				f := Found{Key: key, Desc: fmt.Sprintf("sum of all balances changed by %s wei over one transaction (%s): %s", d.String(), res.Statuses, line),
+				f := Found{Key: key, Desc: fmt.Sprintf("sum of all balances changed by %s wei over one block (%s): %s", d.String(), res.Statuses, strings.Join(lines, " | ")),
 					Replay: append(append([]string{}, setupLines...), history...)}
 				bs, _ := json.Marshal(f)
 				fmt.Println("FOUND " + string(bs))
@@ -373,11 +401,71 @@ func runSearch(g *Gen, n int, stats map[string]interface{}) {
 	stats["search_evaluations"] = evals
 }
 
-func firstGas(r BlockResult) uint64 {
-	if len(r.GasUsed) > 0 {
-		return r.GasUsed[0]
+// searchCorpus replays every corpus file, checking the sum after every block.
+func searchCorpus(w *World, found map[string]bool) int {
+	dir := os.Getenv("VERIF_CORPUS")
+	files, _ := filepath.Glob(filepath.Join(dir, "*.ops"))
+	sort.Strings(files)
+	n := 0
+	for _, p := range files {
+		bs, err := os.ReadFile(p)
+		if err != nil {
+			continue
+		}
+		var sofar []string
+		var block []string
+		for _, line := range strings.Split(string(bs), "\n") {
+			line = strings.TrimSpace(line)
+			if line == "" || line[0] == '#' {
+				continue
+			}
+			sofar = append(sofar, line)
+			if strings.HasPrefix(line, "tx ") {
+				block = append(block, line)
+			}
+			if line != "exec" {
+				replayOne(w, line)
+				continue
+			}
+			mayBurn := false
+			neg := false
+			for _, q := range w.queue {
+				if q.isCt && ctMayBurn(w, q) {
+					mayBurn = true
+				}
+				if q.feat["negvalue"] {
+					neg = true
+				}
+			}
+			res := w.Exec()
+			n++
+			if res.Panic != "" {
+				block = nil
+				continue
+			}
+			d := new(big.Int).Sub(res.After, res.Before)
+			key := ""
+			if d.Sign() > 0 {
+				key = "mint-contract-tx"
+				if neg {
+					key = "mint-negative-transferValue"
+				} else if len(block) > 0 && strings.HasPrefix(block[0], "tx op") && len(block) == 1 {
+					key = "mint-operator-tx"
+				}
+			} else if d.Sign() < 0 && !mayBurn {
+				key = "burn-unexplained"
+			}
+			if key != "" && !found[key] {
+				found[key] = true
+				f := Found{Key: key, Desc: fmt.Sprintf("corpus %s: sum of all balances changed by %s wei over one block (%s): %s",
+					filepath.Base(p), d.String(), res.Statuses, strings.Join(block, " | ")), Replay: append([]string{}, sofar...)}
+				js, _ := json.Marshal(f)
+				fmt.Println("FOUND " + string(js))
+			}
+			block = nil
+		}
 	}
-	return 0
+	return n
 }
 
 func ctMayBurn(w *World, q *QTx) bool {
